@@ -32,10 +32,14 @@
      h_locs, so the places listed always still hold the current object.)
    * str.lower() in start_property is modelled for ASCII only: no non-ASCII
      character lower-cases to one of the letters of read/write/readwrite.
-   * DBusInterface._xml (the cached text) is not modelled: addMethod/addSignal/
-     addProperty reset it, and the only other mutation - attribute assignment
-     through the handler's alias - happens while the object is being parsed,
-     before anything can have asked for its XML.
+   * DBusInterface._xml (the cached text) is not part of [iface]; the mutable
+     object with its cache (addX / delX / _getXml as the code performs them)
+     is Model/IfaceCache.v, and Props/C15.v (C15_cache_coherent) proves that
+     after any history of those calls _getXml returns [gen_iface] of the
+     members as they are then - which is what [gen_doc] below uses.  The only
+     other mutation - attribute assignment through the handler's alias -
+     happens while the object is being parsed, before anything can have asked
+     for its XML.
    * Method.__init__'s Twisted-version test for several 'h' arguments is not
      modelled (it cannot fire with the installed Twisted >= 17.1). *)
 From Tx Require Import Lib.Base.
